@@ -33,8 +33,74 @@ theorem walEntries_removeWal (wals : List Wal) (n walNo : Nat) (h : n < walNo) :
     simp [hx, this]
   · simp [hx]
 
+/-- WALs without records contribute nothing to the replay -/
+theorem flat_of_all_empty (p : Wal → Bool) (ys : List Wal) (h : ∀ x ∈ ys, x.2 = []) :
+    ((ys.filter p).map walFlat).flatten = [] := by
+  induction ys with
+  | nil => rfl
+  | cons y ys ih =>
+    have hy : walFlat y = [] := by unfold walFlat; rw [h y List.mem_cons_self]; rfl
+    have ih' := ih (fun x hx => h x (List.mem_cons_of_mem _ hx))
+    rw [List.filter_cons]
+    by_cases hp : p y = true
+    · rw [if_pos hp, List.map_cons, List.flatten_cons, hy, ih']; rfl
+    · rw [if_neg hp]; exact ih'
+
+theorem walFlat_snoc (n : Nat) (v : List WBatch) (b : WBatch) :
+    walFlat (n, v ++ [b]) = walFlat (n, v) ++ batchEntries b := by
+  simp [walFlat]
+
+/-- in a list sorted by number (numbers unique), appending a batch to WAL `n` appends its entries
+to the END of the replayed entries, provided every WAL behind `n` is empty -/
+theorem flat_setAt_sorted (L : List Wal) (n walNo : Nat) (v : List WBatch) (b : WBatch)
+    (hs : Sorted L) (hnd : (L.map Prod.fst).Nodup) (hmem : (n, v) ∈ L)
+    (hemp : ∀ x ∈ L, n < x.1 → x.2 = []) (hw : walNo ≤ n) :
+    (((L.map (setAt n (v ++ [b]))).filter fun w => decide (walNo ≤ w.1)).map walFlat).flatten
+      = ((L.filter fun w => decide (walNo ≤ w.1)).map walFlat).flatten ++ batchEntries b := by
+  induction L with
+  | nil => simp at hmem
+  | cons y ys ih =>
+    unfold Sorted at hs ih
+    rw [List.pairwise_cons] at hs
+    simp only [List.map_cons, List.nodup_cons] at hnd
+    have hemp' : ∀ x ∈ ys, n < x.1 → x.2 = [] := fun x hx => hemp x (List.mem_cons_of_mem _ hx)
+    by_cases hy : y = (n, v)
+    · subst hy
+      have hgt : ∀ x ∈ ys, n < x.1 := by
+        intro x hx
+        have h1 : n ≤ x.1 := hs.1 x hx
+        have h2 : x.1 ≠ n := by
+          intro hxn; apply hnd.1; simp only; rw [← hxn]; exact List.mem_map.2 ⟨x, hx, rfl⟩
+        omega
+      have hmap : ys.map (setAt n (v ++ [b])) = ys := by
+        conv => rhs; rw [← List.map_id ys]
+        apply List.map_congr_left
+        intro x hx; exact setAt_of_ne _ _ _ (by have := hgt x hx; omega)
+      have hall : ∀ x ∈ ys, x.2 = [] := fun x hx => hemp' x hx (hgt x hx)
+      have e1 : setAt n (v ++ [b]) (n, v) = (n, v ++ [b]) := by simp [setAt]
+      have hd : decide (walNo ≤ n) = true := by simpa using hw
+      rw [List.map_cons, hmap, e1, List.filter_cons, List.filter_cons]
+      simp only [hd, if_true, List.map_cons, List.flatten_cons]
+      rw [flat_of_all_empty _ ys hall, walFlat_snoc]
+      simp
+    · have hmem' : (n, v) ∈ ys := by
+        rcases List.mem_cons.1 hmem with h | h
+        · exact absurd h.symm hy
+        · exact h
+      have hyn : y.1 ≠ n := by
+        intro h; apply hnd.1; rw [h]; exact List.mem_map.2 ⟨(n, v), hmem', rfl⟩
+      have ih' := ih hs.2 hnd.2 hmem' hemp'
+      rw [List.map_cons, setAt_of_ne _ _ _ hyn, List.filter_cons, List.filter_cons]
+      by_cases hp : decide (walNo ≤ y.1) = true
+      · rw [if_pos hp, if_pos hp, List.map_cons, List.map_cons, List.flatten_cons, List.flatten_cons,
+          ih', List.append_assoc]
+      · rw [if_neg hp, if_neg hp]; exact ih'
+
+/-- appending to WAL `n` while every WAL with a larger number is still empty (a rotation that
+failed half-way leaves such a file behind) appends to the end of what recovery replays -/
 theorem walEntries_appendWal (wals : List Wal) (n walNo : Nat) (b : WBatch)
-    (hnd : (wals.map Prod.fst).Nodup) (hmem : n ∈ wals.map Prod.fst) (hmax : ∀ x ∈ wals, x.1 ≤ n)
+    (hnd : (wals.map Prod.fst).Nodup) (hmem : n ∈ wals.map Prod.fst)
+    (hemp : ∀ x ∈ wals, n < x.1 → x.2 = [])
     (hw : walNo ≤ n) :
     walEntriesOf (update wals n ((lookup wals n).getD [] ++ [b])) walNo
       = walEntriesOf wals walNo ++ batchEntries b := by
@@ -42,20 +108,9 @@ theorem walEntries_appendWal (wals : List Wal) (n walNo : Nat) (b : WBatch)
   have hin := mem_of_lookup wals n v hv
   rw [hv, Option.getD_some, update_of_mem wals n _ hmem]
   unfold walEntriesOf
-  rw [sortWals_map _ (setAt_fst n (v ++ [b])), sortWals_max wals n v hnd hin hmax]
-  have hP : ∀ x ∈ sortWals (wals.filter fun p => !(p.1 == n)), x.1 ≠ n := by
-    intro x hx
-    have := (List.mem_filter.1 ((mem_sortWals x _).1 hx)).2
-    simpa using this
-  have hmapP : (sortWals (wals.filter fun p => !(p.1 == n))).map (setAt n (v ++ [b]))
-      = sortWals (wals.filter fun p => !(p.1 == n)) := by
-    conv => rhs; rw [← List.map_id (sortWals _)]
-    apply List.map_congr_left
-    intro x hx; exact setAt_of_ne _ _ _ (hP x hx)
-  rw [List.map_append, hmapP]
-  simp only [List.filter_append, List.map_append, List.flatten_append, List.map_cons, List.map_nil]
-  have e1 : setAt n (v ++ [b]) (n, v) = (n, v ++ [b]) := by simp [setAt]
-  rw [e1]
-  simp [hw, walFlat, List.append_assoc]
+  rw [sortWals_map _ (setAt_fst n (v ++ [b]))]
+  exact flat_setAt_sorted (sortWals wals) n walNo v b (sorted_sortWals wals)
+    (nodup_keys_sortWals wals hnd) ((mem_sortWals _ _).2 hin)
+    (fun x hx => hemp x ((mem_sortWals x wals).1 hx)) hw
 
 end Rain.Durable.Lemmas
